@@ -29,7 +29,8 @@ type Case struct {
 	Backend string `json:"backend"`
 	Lines   []Line `json:"lines"`
 	NoFinal bool   `json:"no_final_newline"`
-	Raw     []byte `json:"raw,omitempty"` // fuzz/regress: literal body instead of Lines
+	Raw     []byte `json:"raw,omitempty"`   // fuzz/regress: literal body instead of Lines
+	NRcpt   int    `json:"nrcpt,omitempty"` // recipients of the transaction (0 = one)
 }
 
 var kinds = []string{"empty", "dot", "dotdot", "dottext", "text", "text", "text", "8bit", "nul", "barecr", "endcr", "crcr", "rand", "long"}
@@ -128,6 +129,7 @@ var prop = hx.Prop[Case]{
 			Backend: rapid.SampledFrom([]string{"mem", "file"}).Draw(t, "backend"),
 			Lines:   rapid.SliceOfN(lineGen, 0, 12).Draw(t, "lines"),
 			NoFinal: rapid.IntRange(0, 3).Draw(t, "nofinal") == 0,
+			NRcpt:   rapid.SampledFrom([]int{1, 1, 2, 3}).Draw(t, "nrcpt"),
 		}
 		if hx.Tier() == "thorough" && rapid.IntRange(0, 150).Draw(t, "huge") == 0 {
 			c.Lines = append(c.Lines, Line{Kind: "huge", EOL: "crlf"})
@@ -214,7 +216,14 @@ func run(c Case) *hx.Outcome {
 		o.Failf(pid+":harness", "dial: %v", err)
 		return o
 	}
-	for _, s := range []string{"EHLO c.test", "MAIL FROM:<s@a.test>", "RCPT TO:<box@a.test>", "DATA"} {
+	cmds := []string{"EHLO c.test", "MAIL FROM:<s@a.test>", "RCPT TO:<box@a.test>"}
+	var toList []*mailAddr
+	toList = append(toList, &mailAddr{Address: "box@a.test"})
+	for i := 1; i < c.NRcpt; i++ {
+		cmds = append(cmds, fmt.Sprintf("RCPT TO:<box%d@a.test>", i))
+		toList = append(toList, &mailAddr{Address: fmt.Sprintf("box%d@a.test", i)})
+	}
+	for _, s := range append(cmds, "DATA") {
 		if r, err := cl.Cmd(s); err != nil || (r.Class() != 2 && r.Code != 354) {
 			o.Failf(pid+":harness", "%q: %v %v", s, r, err)
 			_ = cl.Close()
@@ -244,8 +253,15 @@ func run(c Case) *hx.Outcome {
 	}
 	// the store itself
 	model := hx.NewEModel()
-	model.Add(&hx.EMsg{Mailbox: "box", From: (&hx.Addr{Address: "a@a.test"}).Mail(), To: []*mailAddr{{Address: "box@a.test"}},
-		Subject: "c02", Sender: "s@a.test", Helo: "c.test", Data: tx, NotBefo: t0, NotAfter: time.Now()})
+	for i := 0; i < len(toList); i++ {
+		name := "box"
+		if i > 0 {
+			name = fmt.Sprintf("box%d", i)
+		}
+		// every recipient's copy must carry the complete transmitted data
+		model.Add(&hx.EMsg{Mailbox: name, From: (&hx.Addr{Address: "a@a.test"}).Mail(), To: toList,
+			Subject: "c02", Sender: "s@a.test", Helo: "c.test", Data: tx, NotBefo: t0, NotAfter: time.Now()})
+	}
 	if err := hx.CmpE2E(w.Store, model, nil); err != nil {
 		o.Failf(pid+":store-content", "%v", err)
 		return o
